@@ -17,7 +17,8 @@
 //   exclusive start on the LAST unit of a block is the NEXT block; `RangeIter::begin` then never meets the start anchor, nothing is
 //   yielded and no item is marked as linked: the link dereferences correctly but never fires an event.
 //
-// FINDING Q3 (`Quotable::quote`, first walk; obligation quote_start_walk_q3::post; OPEN): the start anchor is taken from the item
+// FINDING Q3 (`Quotable::quote`, first walk; REPAIRED by repair_q3.diff -- after it Q3a: c, Q3b: b,c, Q3c: b,c, Q3d: Err; the cases
+//   are kept as a record): the start anchor is taken from the item
 //   at which the index is used up (`if remaining == 0 { break; }`), even if that item is a tombstone standing in front of the
 //   element at the index: an exclusive start then INCLUDES the element it should exclude; an inclusive start lets a concurrent
 //   insert between the tombstone and the first element into the quotation; `quote(len..)` is Ok when a tombstone trails.
